@@ -133,4 +133,21 @@ STATUS = {
               "declaration-order sequence of field updates on the shared env/rng, and a uniformity argument read off the macro's own code (only the "
               "identifier of each field is read, plain iteration, one fixed token sequence per field) that extends the verdict to all shapes."),
         note=TRUST + "quote/syn/proc-macro2 semantics of push_* calls (trusted)."),
+    "C16": dict(
+        claimed=True,
+        technique="grid-alignment / sign abstract domains over price provenance, sibling checks of the helper functions, element provenance through iterator chains and closure captures, Bernoulli-comparison census, panic-site census with discharge table",
+        text=("Decides for the built-in agents: every submitted limit price is on the agent's tick grid (including after the final clamp), buys quote "
+              "at or below and sells at or above the observed mid, ids/volumes/ticks come from the agent's own configuration, cancellations only "
+              "target own ids that passed the Active filter, random agents hold at most one live order per slot, every draw-vs-probability comparison "
+              "is `u < p` / `u >= p` (so p = 0 never and p >= 1 always acts, once per trader per step), and every panic-capable site reachable from an "
+              "update is discharged under stated parameter assumptions. Probabilities strictly between 0 and 1 and runs outside the assumptions are not decided."),
+        note=TRUST + "Assumes agent tick = environment tick, non-empty ranges, finite distribution parameters."),
+    "C17": dict(
+        claimed=True,
+        technique="sign-domain abstract interpretation of the momentum update bodies with feasibility of guarded placement sites, origin check of the recurrence, mirror/sibling checks",
+        text=("Decides direction and symmetry structurally: for M > 0 exactly the buy sites are feasible, for M < 0 exactly the sell sites, for M = 0 none; "
+              "the probability compared with the draw is non-negative and even in M; the stored recurrence is m(1-decay)+decay(P-p); buy/sell "
+              "branches and single/multi-asset variants mirror each other. Sound sign abstraction under the stated positive-parameter assumptions; "
+              "the numeric value of the probability is not decided."),
+        note=TRUST + "Assumes demand, scale, order_ratio, n > 0 and decay in (0, 1]."),
 }
